@@ -255,6 +255,10 @@ func (c *Conf) InitFromBytes(content []byte) error {
 				leaf.setValue(v)
 				currNode.addChild(k, leaf)
 			}
+			if err := lineDecoder.Err(); err != nil {
+				// the scanner gives up on a line longer than bufio.MaxScanTokenSize: the rest of the text must not be dropped silently
+				return fmt.Errorf("parse config error: %v", err)
+			}
 		case xml.StartElement:
 			nodeName := t.Name.Local
 			node, ok := currNode.findChild(nodeName)
